@@ -10,6 +10,7 @@
 //   - the TransactionList chunk size (grpc.MaxMessageSizeInBytes - 512): a list of exactly max-1, max, max+1 bytes and a
 //     three-chunk list (multi-message conversations: resetTimeout, done on the last message);
 //   - the page size (dag.PageSize = 512): one side behind by 511, 512, 513, 1023, 1024, 1025 transactions.
+//
 // Every scenario ends with the fair suffix and the same oracle as the rest of C07; the limit-crossing ones are also run
 // with every single deviation at every delivery position.
 package v2
@@ -84,9 +85,13 @@ func vc07PayloadUniverse(name string, prevs [][]int, payloadOf func(i int, u *vc
 // vc07Phase scripts one round: transactions created on a node before its tick, after both ticks, or just before the
 // delivery with the given index WITHIN the round.
 type vc07Phase struct {
-	BeforeTicks [2][]int         `json:"before_ticks"`
-	AfterTicks  [2][]int         `json:"after_ticks"`
-	AtDelivery  map[int][2][]int `json:"at_delivery,omitempty"`
+	Reconnect    [2]bool          `json:"reconnect"`  // at the start of the round
+	Disconnect   [2]bool          `json:"disconnect"` // next, before anything is created
+	BeforeTicks  [2][]int         `json:"before_ticks"`
+	AfterTicks   [2][]int         `json:"after_ticks"`
+	AtDelivery   map[int][2][]int `json:"at_delivery,omitempty"`
+	DisconnectAt map[int][2]bool  `json:"disconnect_at,omitempty"` // just before the delivery with this index within the round
+	NoReconnect  bool             `json:"no_reconnect"`            // scripted round during which a disconnected node stays disconnected
 }
 
 func (w *vc07World) create(t testing.TB, node int, ids []int) {
@@ -104,7 +109,11 @@ func (w *vc07World) create(t testing.TB, node int, ids []int) {
 
 // vc07RunScript executes the scripted rounds, then fair rounds until convergence; devs as in vc07RunLarge.
 func vc07RunScript(t testing.TB, dir string, u *vc07Universe, tpl *vc07Template, script []vc07Phase, devs []vc07Dev, rmax int, outcome func(string)) vc07LargeResult {
-	w := vc07Build(t, dir, u, tpl, [2][]int{})
+	return vc07RunScriptPeers(t, dir, u, tpl, script, devs, rmax, outcome, false)
+}
+
+func vc07RunScriptPeers(t testing.TB, dir string, u *vc07Universe, tpl *vc07Template, script []vc07Phase, devs []vc07Dev, rmax int, outcome func(string), withDID bool) vc07LargeResult {
+	w := vc07BuildPeers(t, dir, u, tpl, [2][]int{}, withDID)
 	defer w.close()
 	w.outcome = outcome
 	res := vc07LargeResult{rounds: -1, kinds: map[string]int{}}
@@ -151,12 +160,27 @@ func vc07RunScript(t testing.TB, dir string, u *vc07Universe, tpl *vc07Template,
 		if scripted {
 			ph = script[round]
 		}
+		for n := 0; n < 2; n++ {
+			if !w.nodes[n].connected && (ph.Reconnect[n] || !scripted) {
+				w.apply(vc07Event{K: "reconnect", N: n})
+			}
+		}
+		for n := 0; n < 2; n++ {
+			if ph.Disconnect[n] && w.nodes[n].connected {
+				w.disconnect(n)
+				w.steps++
+				held = nil
+			}
+		}
 		w.apply(vc07Event{K: "expire", N: 0})
 		w.nodes[1].p.cMan.evict()
 		w.create(t, 0, ph.BeforeTicks[0])
 		w.create(t, 1, ph.BeforeTicks[1])
-		w.apply(vc07Event{K: "tick", N: 0})
-		w.apply(vc07Event{K: "tick", N: 1})
+		for n := 0; n < 2; n++ {
+			if w.nodes[n].connected { // a disconnected node has no gossip ticker for the peer
+				w.apply(vc07Event{K: "tick", N: n})
+			}
+		}
 		w.create(t, 0, ph.AfterTicks[0])
 		w.create(t, 1, ph.AfterTicks[1])
 		w.pool = append(held, w.pool...)
@@ -174,6 +198,18 @@ func vc07RunScript(t testing.TB, dir string, u *vc07Universe, tpl *vc07Template,
 			if c, ok := ph.AtDelivery[inRound]; ok {
 				w.create(t, 0, c[0])
 				w.create(t, 1, c[1])
+			}
+			if d, ok := ph.DisconnectAt[inRound]; ok {
+				for n := 0; n < 2; n++ {
+					if d[n] && w.nodes[n].connected {
+						w.disconnect(n)
+						w.steps++
+					}
+				}
+				held, tail = nil, nil
+				if len(w.pool) == 0 {
+					break
+				}
 			}
 			inRound++
 			m := w.pool[0]
@@ -222,11 +258,12 @@ func vc07RunScript(t testing.TB, dir string, u *vc07Universe, tpl *vc07Template,
 }
 
 type vc07Limit struct {
-	Name   string
-	Class  string // stable class for signatures
-	Build  func() (*vc07Universe, [2][]int, []vc07Phase)
-	Kinds  []string // deviation kinds swept over every position (nil: fair run only)
-	Kinds2 []string // thorough: additional kinds
+	Name    string
+	Class   string // stable class for signatures
+	Build   func() (*vc07Universe, [2][]int, []vc07Phase)
+	WithDID bool     // the connections carry authenticated node DIDs
+	Kinds   []string // deviation kinds swept over every position (nil: fair run only)
+	Kinds2  []string // thorough: additional kinds
 }
 
 func vc07Seq(from, n int) []int {
@@ -304,6 +341,43 @@ func vc07Limits(thorough bool) []vc07Limit {
 					}
 					return vc07PayloadUniverse("burstMid", prevs, vc07SmallPayload), [2][]int{{0}, {0}}, []vc07Phase{ph}
 				}})
+		}
+	}
+	// --- connection churn: sync, the stream drops (both notice / only A / only B), k transactions are created on A while
+	//     disconnected, the stream comes back, k2 more are created, fair suffix; with and without node DIDs on the
+	//     connections (transport.Peer.Key() differs) ---------------------------------------------------------------------
+	for _, withDID := range []bool{false, true} {
+		for wi, who := range [][2]bool{{true, true}, {true, false}, {false, true}} {
+			for _, k := range []int{1, 101} {
+				for _, k2 := range []int{0, 1, 101} {
+					withDID, who, k, k2 := withDID, who, k, k2
+					name := fmt.Sprintf("reconnect-%s-create-%d-then-%d-did-%v", []string{"both", "only-A", "only-B"}[wi], k, k2, withDID)
+					out = append(out, vc07Limit{Name: name, Class: fmt.Sprintf("reconnect-%s-create-%d-then-%d", []string{"both", "only-A", "only-B"}[wi], k, k2), WithDID: withDID,
+						Build: func() (*vc07Universe, [2][]int, []vc07Phase) {
+							prevs, a := vc07Chain([][]int{nil}, 0, k)
+							prevs, b := vc07Chain(prevs, a[len(a)-1], k2)
+							return vc07PayloadUniverse("churn", prevs, vc07SmallPayload), [2][]int{{0}, {0}}, []vc07Phase{
+								{},
+								{Disconnect: who, BeforeTicks: [2][]int{a, nil}, NoReconnect: true},
+								{Reconnect: [2]bool{true, true}, BeforeTicks: [2][]int{b, nil}},
+							}
+						}})
+				}
+			}
+			// the stream drops in the middle of an exchange (3 transactions under way), just before the d-th delivery
+			for d := 0; d <= 7; d++ {
+				withDID, who, d := withDID, who, d
+				name := fmt.Sprintf("drop-stream-%s-at-delivery-%d-did-%v", []string{"both", "only-A", "only-B"}[wi], d, withDID)
+				out = append(out, vc07Limit{Name: name, Class: fmt.Sprintf("drop-stream-%s-mid-exchange", []string{"both", "only-A", "only-B"}[wi]), WithDID: withDID,
+					Build: func() (*vc07Universe, [2][]int, []vc07Phase) {
+						prevs, a := vc07Chain([][]int{nil}, 0, 3)
+						prevs, b := vc07Chain(prevs, a[2], 2)
+						return vc07PayloadUniverse("churnMid", prevs, vc07SmallPayload), [2][]int{{0}, {0}}, []vc07Phase{
+							{BeforeTicks: [2][]int{a, nil}, DisconnectAt: map[int][2]bool{d: who}},
+							{Reconnect: [2]bool{true, true}, BeforeTicks: [2][]int{b, nil}},
+						}
+					}})
+			}
 		}
 	}
 	// --- TransactionList chunk boundary: B is ahead by 40 transactions whose list takes exactly max-1 / max / max+1 bytes
@@ -408,7 +482,7 @@ func TestVerifC07Limits(t *testing.T) {
 			}
 			u, init, script := l.Build()
 			tpl := vc07MakeTemplate(t, dir, u, init)
-			res := vc07RunScript(t, dir, u, tpl, script, rc.Devs, rmax, outcome)
+			res := vc07RunScriptPeers(t, dir, u, tpl, script, rc.Devs, rmax, outcome, l.WithDID)
 			t.Logf("rounds=%d deliveries=%d clause=%q %s messages=%v", res.rounds, res.deliveries, res.clause, res.detail, res.kinds)
 			if res.clause != "" {
 				r.Violation("C07|limits:"+sig(l, res.clause, rc.Devs), res.detail, rc)
@@ -424,7 +498,7 @@ func TestVerifC07Limits(t *testing.T) {
 	}
 	r.Rule("structured limit-crossing scenarios on two connected nodes, transactions CREATED through the real State.Add while connected: bursts of 1/99/100/101/150 within one gossip " +
 		"interval (gossip queue and log limit 100) on one node, split over two intervals, on both nodes, and landing at every point of a running exchange; a transaction list of exactly " +
-		"max-1/max/max+1 bytes of one message and a three-message list; one side behind by 511/512/513/1023/1024/1025 (page size 512). Each scenario: scripted rounds, then the fair suffix; " +
+		"max-1/max/max+1 bytes of one message and a three-message list; one side behind by 511/512/513/1023/1024/1025 (page size 512); connection churn (the stream drops for both / one side, 1 or 101 transactions created while disconnected and 0/1/101 after the reconnect; the stream dropping before every delivery of a running exchange), with and without node DIDs on the connections. Each scenario: scripted rounds, then the fair suffix; " +
 		"limit-crossing scenarios additionally with every single deviation of the listed kinds at every delivery position. A case is (scenario, deviation).")
 	r.Bound("limit_scenarios", len(limits))
 	r.Bound("R_max_allowed_limits", rmax)
@@ -460,7 +534,7 @@ func TestVerifC07Limits(t *testing.T) {
 				tpl = vc07MakeTemplate(t, dir, u, init)
 			}
 			run := func(devs []vc07Dev) vc07LargeResult {
-				res := vc07RunScript(t, dir, u, tpl, script, devs, rmax, outcome)
+				res := vc07RunScriptPeers(t, dir, u, tpl, script, devs, rmax, outcome, l.WithDID)
 				states += res.checked
 				trans += res.steps
 				r.Eval(fmt.Sprintf("%s %v", l.Name, devs))
@@ -481,7 +555,7 @@ func TestVerifC07Limits(t *testing.T) {
 				continue
 			}
 			if positions < 0 {
-				positions = vc07RunScript(t, dir, u, tpl, script, nil, rmax, nil).deliveries
+				positions = vc07RunScriptPeers(t, dir, u, tpl, script, nil, rmax, nil, l.WithDID).deliveries
 			}
 			for pos := 0; pos < positions && !r.Expired() && r.Violations() == 0; pos++ {
 				run([]vc07Dev{{Pos: pos, Kind: kind}})
